@@ -39,6 +39,8 @@ type instVariant struct {
 	extraDirs    []string // further directories of /verif/corpus to copy into the scratch module (packages the source imports)
 	formatter    string   // default goimports
 	outOfPkg     bool     // generate into a sub-directory "mocks" as package mocks (default: next to the interface)
+	filename     string   // output file name template (default mocks_gen.go)
+	moreSources  []string // further source files of the same package, relative to /verif/corpus (package clause renamed likewise)
 }
 
 var matryerVariants = []instVariant{
@@ -137,6 +139,13 @@ func (e *instEnv) generate(variants []instVariant) (root string, err error) {
 		// the corpus source, with only its package clause renamed (mechanical)
 		renamed := strings.Replace(string(text), "\npackage "+srcPkg+"\n", "\npackage "+v.pkg+"\n", 1)
 		os.WriteFile(filepath.Join(dir, "ifaces.go"), []byte(renamed), 0o644)
+		for _, ms := range v.moreSources {
+			t2, e3 := os.ReadFile(filepath.Join(src, ms))
+			if e3 != nil {
+				return root, e3
+			}
+			os.WriteFile(filepath.Join(dir, filepath.Base(ms)), []byte(strings.Replace(string(t2), "\npackage "+srcPkg+"\n", "\npackage "+v.pkg+"\n", 1)), 0o644)
+		}
 		prefix := "Moq"
 		if v.template == "testify" {
 			prefix = "Mock"
@@ -147,6 +156,9 @@ func (e *instEnv) generate(variants []instVariant) (root string, err error) {
 		}
 		if v.outOfPkg {
 			fmt.Fprintf(&y, "      dir: \"{{.InterfaceDir}}/mocks\"\n      pkgname: mocks\n")
+		}
+		if v.filename != "" {
+			fmt.Fprintf(&y, "      filename: %q\n", v.filename)
 		}
 	}
 	os.WriteFile(filepath.Join(root, ".mockery.yml"), []byte(y.String()), 0o644)
